@@ -104,7 +104,10 @@ func c09Run(s *c09Scn, segName string) verdict {
 	}
 
 	sess, err := newNcSession(ncConfig{adv10: s.Adv10, adv11: s.Adv11, preferred: pref, echo: s.Echo, seg: faultSegs[segName], seed: int64(s.idx),
-		timeout: 8 * time.Second, hello: hello, reply: ncReplyOK, extra: extra}) // no cell's outcome is a timeout: the budget only has to be generous (forty wrapped capabilities, one byte per read, a loaded machine)
+		// some cells over a transport that logs in inside the byte stream; short hellos only: the login loop looks through everything
+		// read so far after every read, which with one byte per read and forty capabilities takes longer than any budget
+		inChannelAuth: s.idx%3 == 1 && (s.Extra == "none" || s.Extra == "ordinary"),
+		timeout:       8 * time.Second, hello: hello, reply: ncReplyOK, extra: extra}) // no cell's outcome is a timeout: the budget only has to be generous (forty wrapped capabilities, one byte per read, a loaded machine)
 	if err != nil {
 		fail(&v, "C09:new-error", "%v", err)
 
